@@ -324,7 +324,7 @@ def run(rep):
                             if cname(c) == 'std::iter::ExactSizeIterator::len' and op_local(c['args'][0]) is not None:
                                 _, rc, _ = B.backward_slice([op_local(c['args'][0])])
                                 rn = [(method(cname(x)), x) for _, x in rc]
-                                if rn and all(m_ in ('keys', 'new', 'default') for m_, _ in rn) and \
+                                if rn and all(m_ in ('keys', 'new', 'default', 'copied', 'cloned') for m_, _ in rn) and \
                                         any(m_ == 'keys' and cname(x).startswith('std::collections::BTreeMap') and canon(B, op_place(x['args'][0]))[0] == r[0] for m_, x in rn):
                                     len_same = True
                     casts = closure_casts(mir, B, calls)
